@@ -1083,6 +1083,35 @@ class Walker:
         self.inline = inline or set()     # crate-local callees whose paths are spliced into the caller's paths
         self.depth = depth
 
+    _KNOWN_FUNCTIONS = None
+
+    def _new_helper(self, name):
+        """a crate-local function that does not exist on the pinned tree: an extracted helper, walked as part of its
+        callers (ledgers/known_functions.json is the list of functions of the pinned tree)"""
+        facts = self.body.facts
+        if facts is None or name not in facts.bodies or "{closure" in name or name == self.body.path:
+            return False
+        if Walker._KNOWN_FUNCTIONS is None:
+            import json as _json
+            import os as _os
+            pth = _os.path.join(_os.path.dirname(_os.path.dirname(_os.path.abspath(__file__))), "ledgers", "known_functions.json")
+            try:
+                with open(pth) as fh:
+                    Walker._KNOWN_FUNCTIONS = set(_json.load(fh)["functions"])
+            except Exception:
+                Walker._KNOWN_FUNCTIONS = set()
+        if not Walker._KNOWN_FUNCTIONS or name in Walker._KNOWN_FUNCTIONS:
+            return False
+        b = facts.bodies[name]
+        if len(b["blocks"]) > 250:
+            return False
+        # pure bool predicates stay atoms (they are expanded on demand, tables.expand_pure)
+        pure = getattr(facts, "_pure_fns", None)
+        if pure is None:
+            pure = _pure_local_predicates(facts)
+            facts._pure_fns = pure
+        return name not in pure
+
     def walk(self, start=0, stops=(), env=None, enter_loops=False, start_is_header=None, plain_headers=(), stop_after_loop=False):
         body = self.body
         loops = body.loops()
@@ -1252,7 +1281,7 @@ class Walker:
                         for cap, m in zip(at[2], at[3]):
                             if m:
                                 mut_roots.append(cap)
-                if name in self.inline and self.depth < 3 and body.facts is not None and name in body.facts.bodies and "t" in t:
+                if (name in self.inline or self._new_helper(name)) and self.depth < 3 and body.facts is not None and name in body.facts.bodies and "t" in t:
                     self._inline_call(n, t, name, args, ev, events, known, blocks)
                     return
                 events.append(Ev("call", n, name, args, res, tuple(mut_roots), span=t["span"]["line"]))
